@@ -684,7 +684,8 @@ def _analyse_exec(run: Any, ea: ExecAnalysis, retire_probe: bool, aborted: bool,
                     and a["path"][0][1] not in ex.selected:
                 for d in deps.get(nid, ()):
                     st_d = status.get(attrs[d]["path"]) if d in attrs else None
-                    if d not in exit_seq and st_d != "memo":
+                    if d not in exit_seq and st_d not in ("memo", "deact", "dag-deact"):
+                        # (a deactivated input is available by design: its value is None)
                         V.append(viol("debug_input_missing", f"debug node {nid} was pulled into the sub-graph run although its input {d} "
                                       f"is neither executed nor pre-computed", op=opkey, tok=tok, tags=["debug"]))
                 inside.add(nid)
